@@ -70,6 +70,9 @@ def _alarm(_sig, _frm):
 # show that the model's refutation under a non-injective generator is what the code does
 
 
+_KEEP = []
+
+
 def register_colliding_generator():
     from nemoguardrails.embeddings import cache as ch
 
@@ -83,6 +86,7 @@ def register_colliding_generator():
         def generate_key(self, text: str) -> str:
             return "L%d" % len(text)
 
+    _KEEP.append(VerifLenKeyGenerator)   # __subclasses__() only holds weak references
     return VerifLenKeyGenerator
 
 
@@ -301,7 +305,8 @@ class Director:
                 c = self.cfg["cache"]
                 kw["cache_config"] = {"enabled": True, "key_generator": c["key_generator"], "store": c["store"],
                                       "store_config": ({"cache_dir": c["dir"]} if c["store"] == "filesystem" else {})}
-            self.index = basic.BasicEmbeddingsIndex(use_batching=True, max_batch_size=self.cfg["max"],
+            self.index = basic.BasicEmbeddingsIndex(embedding_model="fake-0", embedding_engine="verif_fake",
+                                                    use_batching=True, max_batch_size=self.cfg["max"],
                                                     max_batch_hold=self.cfg.get("hold", 0.01), **kw)
             self.index._model = FakeModel(self)
             n = len(self.texts)
@@ -353,6 +358,13 @@ class Director:
                     break
             await self.flush()
             final = self.snap()
+            fstore_now = read_store_dir(cdir) if cdir else None
+            keytab = {}
+            if self.cfg.get("cache"):   # after the run: the probe must not disturb the implementation
+                self.warmup = True
+                keytab = await probe_keys(self.index, list(self.texts) + list(self.cfg.get("prefill") or []),
+                                          self.cfg["cache"]["key_generator"])
+                self.warmup = False
             bexc = []
             for t in self.batch_tasks:
                 if t.done() and not t.cancelled() and t.exception() is not None:
@@ -360,10 +372,8 @@ class Director:
             return {"log": self.log, "final": final, "results": {str(i): list(r) for i, r in self.results.items()},
                     "stuck": stuck or len(self.results) < n, "batch_exc": bexc, "problems": self.problems,
                     "n_batches": len(self.batch_tasks), "st0": st0,
-                    "keytab": ({t: key_of(self.cfg["cache"]["key_generator"], t)
-                                for t in list(self.texts) + list(self.cfg.get("prefill") or [])}
-                               if self.cfg.get("cache") else {}),
-                    "fstore": read_store_dir(cdir) if cdir else None}
+                    "keytab": keytab,
+                    "fstore": fstore_now}
         finally:
             basic.asyncio = real
 
@@ -462,6 +472,60 @@ def child_main(infile, outfile):
 
 
 # ---------------------------------------------------------------------------------------
+# the keys the implementation REALLY uses for (index, text): observed, not recomputed
+
+
+async def probe_keys(ix, texts, gen_name):
+    """{text: key}: one wrapper call per text on index `ix` with the cache store class swapped for
+    a recorder (the real stores are not touched).  Falls back to the plain key generator where
+    the wrapper does not go through CacheStore.from_name (a mutated implementation)."""
+    from nemoguardrails.embeddings import cache as ch
+
+    out = {}
+    enabled = bool(getattr(ix.cache_config, "enabled", False))
+    if enabled:
+        seen = []
+
+        class Rec:
+            def __init__(self, **kw):
+                pass
+
+            def get(self, key):
+                seen.append(key)
+                return None
+
+            def set(self, key, value):
+                seen.append(key)
+
+            def clear(self):
+                pass
+
+        orig = ch.CacheStore.__dict__["from_name"]
+        saved_model = ix._model
+        ch.CacheStore.from_name = classmethod(lambda cls, name: Rec)
+        ix._model = FakeModel(None)
+        try:
+            for t in dict.fromkeys(texts):
+                del seen[:]
+                try:
+                    await ix._get_embeddings([t])
+                except Exception:  # noqa: BLE001
+                    continue
+                if len(set(seen)) == 1:
+                    out[t] = seen[0]
+        finally:
+            ch.CacheStore.from_name = orig
+            ix._model = saved_model
+    for t in texts:
+        if t not in out:
+            try:
+                out[t] = key_of(gen_name, t)
+            except Exception:  # noqa: BLE001
+                out[t] = "?" + t
+    return out
+
+
+# ---------------------------------------------------------------------------------------
 # cache differential (in-process; the cache code has no loops that can hang)
 
 
@@ -475,10 +539,11 @@ def run_cache_case(spec):
     if spec["enabled"]:
         kw["cache_config"] = {"enabled": True, "key_generator": spec["gen"], "store": spec["store"],
                               "store_config": ({"cache_dir": spec["dir"]} if spec["store"] == "filesystem" else {})}
-    ix = basic.BasicEmbeddingsIndex(**kw)
+    ix = basic.BasicEmbeddingsIndex(embedding_model="fake-0", embedding_engine="verif_fake", **kw)
     model = FakeModel(None)
     ix._model = model
     obs = []
+    keytab = {}
 
     async def main():
         for texts in spec["calls"]:
@@ -489,8 +554,11 @@ def run_cache_case(spec):
             except Exception as e:  # noqa: BLE001
                 obs.append({"exc": repr(e), "calls": model.calls})
                 break
+        if spec["enabled"]:
+            keytab.update(await probe_keys(ix, [t for c in spec["calls"] for t in c], spec["gen"]))
 
     asyncio.run(main())
+    spec["_keytab"] = keytab
     final = None
     if spec["enabled"] and spec["store"] == "filesystem":
         final = {}
@@ -541,7 +609,7 @@ def run_multi_case(spec):
         if c["enabled"]:
             sc = {"cache_dir": os.path.join(spec["base"], f"d{c['dir_id']}")} if c["store"] == "filesystem" else {}
             kw["cache_config"] = {"enabled": True, "key_generator": c["gen"], "store": c["store"], "store_config": sc}
-        ix = basic.BasicEmbeddingsIndex(**kw)
+        ix = basic.BasicEmbeddingsIndex(embedding_model=f"fake-{c['model']}", embedding_engine="verif_fake", **kw)
         m = FakeModelM(c["model"])
         ix._model = m
         ixs.append(ix)
@@ -557,8 +625,13 @@ def run_multi_case(spec):
             except Exception as e:  # noqa: BLE001
                 obs.append({"exc": repr(e), "calls": models[i].calls})
                 break
+        universe = [t for _i, texts in spec["calls"] for t in texts]
+        for j, c in enumerate(spec["indexes"]):
+            keytabs.append(await probe_keys(ixs[j], universe, c["gen"]) if c["enabled"] else {})
 
+    keytabs = []
     asyncio.run(main())
+    spec["_keytabs"] = keytabs
     final = {}
     for c in spec["indexes"]:
         if c["enabled"] and c["store"] == "filesystem" and c["dir_id"] not in final:
@@ -578,15 +651,17 @@ def multi_expected_isolated(spec, i):
     c = spec["indexes"][i]
     if not c["enabled"]:
         return True
-    if c["gen"] not in ("hash", "md5"):
+    # sharing a store (same cache_dir) with an index that uses another model is covered: the keys
+    # contain the model identity (C19_cache_isolation); only the colliding generator is excluded
+    return c["gen"] in ("hash", "md5")
+
+
+def shares_store_with_other_model(spec, i):
+    c = spec["indexes"][i]
+    if not (c["enabled"] and c["store"] == "filesystem"):
         return False
-    if c["store"] != "filesystem":
-        return True
-    for o in spec["indexes"]:
-        if o is not c and o["enabled"] and o["store"] == "filesystem" and o["dir_id"] == c["dir_id"] \
-                and o["model"] != c["model"]:
-            return False
-    return True
+    return any(o is not c and o["enabled"] and o["store"] == "filesystem" and o["dir_id"] == c["dir_id"]
+               and o["model"] != c["model"] for o in spec["indexes"])
 
 
 def multi_case_term(spec, obs, final):
@@ -597,8 +672,9 @@ def multi_case_term(spec, obs, final):
     universe = list(T.ids)
     K = Atoms()
     ixs = []
-    for c in spec["indexes"]:
-        keys = [K(key_of(c["gen"], t)) for t in universe] if c["enabled"] else [0 for _ in universe]
+    for j, c in enumerate(spec["indexes"]):
+        kt = (spec.get("_keytabs") or [{}] * len(spec["indexes"]))[j]
+        keys = [K(kt[t] if t in kt else key_of(c["gen"], t)) for t in universe] if c["enabled"] else [0 for _ in universe]
         sid = f"(Some {c['dir_id']})" if (c["enabled"] and c["store"] == "filesystem") else "None"
         ixs.append(f"({coq_nat_list(keys)}, {c['model']}, {sid}, {C.coq_bool(c['enabled'])})")
 
@@ -689,7 +765,8 @@ def cache_case_term(spec, obs, final):
             T(t)
     universe = list(T.ids)
     K = Atoms()
-    keys = [K(key_of(spec["gen"], t)) for t in universe] if spec["enabled"] else [0 for _ in universe]
+    kt = spec.get("_keytab") or {}
+    keys = [K(kt[t] if t in kt else key_of(spec["gen"], t)) for t in universe] if spec["enabled"] else [0 for _ in universe]
     calls = []
     for texts, o in zip(spec["calls"], obs):
         if "exc" in o:
@@ -1007,14 +1084,14 @@ def confirm_in_fresh_process(out, candidates, base_dir, tag):
         w = first_wrong(sp, r["obs"])
         if w is not None:
             done.add(sig)
-            out.findings.append(C.Finding(sig, w[1], {k: v for k, v in sp.items() if k not in ("dir", "base")}))
+            out.findings.append(C.Finding(sig, w[1], {k: v for k, v in sp.items() if k not in ("dir", "base") and not k.startswith("_")}))
     for sig, lst in sorted(candidates.items()):
         if sig not in done:
             size, what, spec = min(lst, key=lambda x: x[0])
             out.findings.append(C.Finding(
                 sig + ":only-after-earlier-cases-in-the-same-process",
                 what + " (fails only when earlier cases ran in the same process: the implementation keeps state across index objects)",
-                {k: v for k, v in spec.items() if k not in ("dir", "base")}))
+                {k: v for k, v in spec.items() if k not in ("dir", "base") and not k.startswith("_")}))
 
 
 ANCHOR_HASHES = {}
@@ -1043,9 +1120,9 @@ def anchor_hashes():
 # normalised-AST hashes of the anchored code the models were last reconciled with (effort
 # heuristic only: a difference makes the quick tier use a larger budget, DESIGN 2.2)
 RECONCILED = {
-    "EmbeddingsCache": "d30fbe19ef4c", "FilesystemCacheStore": "0a7dcca9f08c", "HashKeyGenerator": "d4584899cb3e",
+    "EmbeddingsCache": "247802a80f99", "FilesystemCacheStore": "0a7dcca9f08c", "HashKeyGenerator": "d4584899cb3e",
     "InMemoryCacheStore": "4f55f64e88f8", "MD5KeyGenerator": "be81fbbe544e", "_batch_get_embeddings": "d1d0a45e940c",
-    "_get_embeddings": "a0ddcf323360", "_run_batch": "29c2857303be", "cache_embeddings": "79caad0ab8ac",
+    "_get_embeddings": "a0ddcf323360", "_run_batch": "29c2857303be", "cache_embeddings": "4bb38116bc95",
 }
 
 
@@ -1161,7 +1238,7 @@ def run(tier, seed, replay=None):
                     s, t = min(badc, key=lambda x: len(x[1]))
                     model = C.eval_term(PID + "_cache", PREAMBLE, f"model_cache {t}")
                     out.add_broken("correspondence:C19-cache",
-                                   f"{len(badc)} disagreements; smallest: {({k: v for k, v in s.items() if k != 'dir'})} case={t} model answers {model[-1500:]}")
+                                   f"{len(badc)} disagreements; smallest: {({k: v for k, v in s.items() if k != 'dir' and not k.startswith('_')})} case={t} model answers {model[-1500:]}")
         # ---------------- several indexes in one process
         multi_specs = [c for c in pre_cases if c.get("kind") == "multi"]
         multi_specs += [gen_multi_spec(rng, base_dir, k) for k in range(n_multi)]
@@ -1176,7 +1253,7 @@ def run(tier, seed, replay=None):
                 out.add_broken("correspondence:C19-multi(driver)", f"{spec}: {e!r}")
                 continue
             en = [c for c in spec["indexes"] if c["enabled"]]
-            shared = any(not multi_expected_isolated(spec, i) for i in range(len(spec["indexes"]))
+            shared = any(shares_store_with_other_model(spec, i) for i in range(len(spec["indexes"]))
                          if spec["indexes"][i]["gen"] in ("hash", "md5"))
             owncfg = len(en) >= 2 and len({(c["gen"], c["store"]) for c in en}) == 1 and \
                 len({c["model"] for c in en}) >= 2 and not shared
@@ -1198,7 +1275,8 @@ def run(tier, seed, replay=None):
                     continue
                 if multi_expected_isolated(spec, i):
                     cache_viol += 1
-                    sig = f"cache:wrapper_decorator:{wrong[0]}:several-indexes:{c['gen']}/{c['store']}"
+                    sig = (f"cache:wrapper_decorator:{wrong[0]}:several-indexes:{c['gen']}/{c['store']}"
+                           + (":shared-cache_dir-different-models" if shares_store_with_other_model(spec, i) else ""))
                     size = len(spec["indexes"]) * 100 + sum(len(t) + 1 for _i, t in spec["calls"])
                     multi_find.setdefault(sig, []).append((size, wrong[1], spec))
                 else:
@@ -1229,7 +1307,7 @@ def run(tier, seed, replay=None):
                     sp, t = min(badm, key=lambda x: len(x[1]))
                     model = C.eval_term(PID + "_multi", PREAMBLE, f"model_multi {t}")
                     out.add_broken("correspondence:C19-multi",
-                                   f"{len(badm)} disagreements; smallest: {({k: v for k, v in sp.items() if k != 'base'})} case={t} model answers {model[-1500:]}")
+                                   f"{len(badm)} disagreements; smallest: {({k: v for k, v in sp.items() if k != 'base' and not k.startswith('_')})} case={t} model answers {model[-1500:]}")
         t_cache = time.time() - t0
 
         # ---------------- batching: trace inclusion + oracle
@@ -1322,12 +1400,12 @@ def run(tier, seed, replay=None):
         "rule": "several indexes: >=2 indexes with the cache enabled and calls on >=2 of them; cache: cache enabled, >=2 texts in play and (>=2 calls on one store or a duplicate inside one call); "
                 "batch: >=2 requests and (>=2 batches or a request that found the queue full and waited for "
                 "_current_batch_submitted); distinct by hash of the Coq case term (cache) / of (max_batch_size, cache mode, label sequence) (batch)",
-        "samples": [{k: v for k, v in s.items() if k != "dir"} for s in kept[:2]]
+        "samples": [{k: v for k, v in s.items() if k != "dir" and not k.startswith("_")} for s in kept[:2]]
                    + [{"cfg": {"max": c["cfg"]["max"], "cache": (c["cfg"].get("cache") or {}).get("store")}, "texts": c["texts"],
                        "labels": [e["l"] for e in r["log"]]} for c, r in tkept[:2]],
         "input_distribution": {"cache_configs": dist, "trace": tdist, "corpus_cases": corpus_n,
                                "several_indexes_cases": {**mdist, "total": len(mterms),
-                                                         "shared_store_different_models_impl_and_model_both_return_the_other_models_vector": multi_shared_shown},
+                                                         "colliding_generator_cases_where_impl_and_model_both_return_a_foreign_vector": multi_shared_shown},
                                "realtime_unwrapped_runs": len(rts),
                                "colliding_generator_cases_where_impl_and_model_both_return_a_wrong_vector": collisions_shown},
         "traces_validated_against_impl": len(tterms),
@@ -1339,7 +1417,7 @@ def run(tier, seed, replay=None):
         "timings_s": {"cache": round(t_cache, 1), "batch": round(t_batch, 1)},
     })
     out.assumptions += [
-        "several indexes in one process: configurations that resolve to the same store (same filesystem cache_dir) agree on key generator and embedding model (C19_cache_isolation; C19_cache_shared_store_refuted shows the second index gets the first model's vectors otherwise - this is what the unchanged code does, e.g. with the default cache_dir '.cache/embeddings' for two indexes with different models); that distinct cache_dirs / in_memory configurations are distinct stores in the implementation is CHECKED by the several-indexes differential and its oracle",
+        "several indexes in one process: the key generators in play are injective on (model identity, text) inside a store and the model identity (embedding_engine, embedding_model) determines the model (C19_cache_isolation; the (T) fact cache_key_includes_model is read from cache.py); indexes with different models sharing one cache_dir are checked by the oracle; the real keys are OBSERVED through a recording store (probe_keys), not recomputed",
         "key generator injective on the texts in play (shipped: str(hash(text)) and md5; C19_cache_collision_refuted shows the property fails otherwise; the harness checks injectivity of the real generators on every generated case through the key table)",
         "the embedding model is a function of each text alone (emb), returns one vector per text and does not raise; a raising model leaves the batch's requests waiting forever (observation, outside the statement)",
         "max_batch_size >= 1 (0 makes every request wait forever; C19_default_batch_size_positive for the shipped default)",
